@@ -169,5 +169,64 @@ def r01_5(ctx):
     return r
 
 
+RQ_READ = ("::lock", "::deref", "::deref_mut", "::len", "::is_empty", "::contains_key", "::get", "::keys", "::iter", "::values",
+           "::into_iter", "::next", "::cloned", "::collect", "::drop", "::fmt", "::new_debug", "::new_display")
+RQ_CLEAR_OK = ()      # no function clears the reorder buffer today
+
+
+def r01_6(ctx):
+    """the receive reorder buffer is a BTreeMap keyed by raw u32 TSNs, whose order is NOT serial-number order
+    across the 2^32 roll-over. Exactly-once in-order delivery therefore needs every element to leave it by key:
+    remove(&next) with next computed from the cumulative ack with wrapping arithmetic, or retain() under tsn_gt
+    (FORWARD-TSN). Any position/order dependent access (first_entry, pop_first, range, split_off, drain ..)
+    stalls or reorders delivery when the buffered TSNs straddle the roll-over."""
+    r = RuleResult("R01.6", "K3", "chunks leave the receive reorder buffer only by serial-arithmetic key")
+    n = 0
+    for b in ctx.facts.bodies(prefix="transports::sctp::"):
+        if "::tests::" in b.name:
+            continue
+        for bi, t, p in b.calls():
+            if not p or not t["a"]:
+                continue
+            a0 = b.term_operand(t["a"][0])
+            if not mir.has_field(a0, "received_queue"):
+                continue
+            if p.startswith("transports::sctp::"):
+                continue        # passed on to a crate function (taken by shared reference: checked there by type)
+            if any(p.endswith(m) for m in RQ_READ) or "core::fmt" in p:
+                continue
+            n += 1
+            m = p.split("::")[-1]
+            site = "call:%s" % m
+            if m == "insert":
+                if b.name == HD:
+                    r.ok({"site": b.where(bi), "op": "insert(tsn, ..)"})
+                else:
+                    r.violate(b.name, site, b.where(bi), "reorder buffer filled outside handle_data")
+            elif m == "remove" and p.endswith("BTreeMap::<K, V, A>::remove"):
+                k = b.term_operand(t["a"][1])
+                if mir.has(k, lambda x: x[0] == "call" and x[1].endswith("wrapping_add") and
+                           mir.has(x, lambda y: core.is_atomic_load(y, "cumulative_tsn_ack"))):
+                    r.ok({"site": b.where(bi), "op": "remove(&cumulative_tsn_ack.wrapping_add(..))"})
+                else:
+                    r.violate(b.name, site, b.where(bi), "chunk removed from the reorder buffer by a key not derived from the cumulative ack with wrapping arithmetic")
+            elif m == "retain":
+                cl = b.term_operand(t["a"][1])
+                cname = cl[1] if cl[0] == "closure" else None
+                okc = False
+                if cname and ctx.facts.has_body(cname):
+                    okc = any(pp and pp.endswith("sctp::tsn_gt") for _, _, pp in ctx.body(cname).calls())
+                if okc:
+                    r.ok({"site": b.where(bi), "op": "retain(|tsn| tsn_gt(..))"})
+                else:
+                    r.violate(b.name, site, b.where(bi), "reorder buffer pruned by a predicate that does not use tsn_gt")
+            else:
+                r.violate(b.name, site, b.where(bi),
+                          "reorder buffer accessed through an order/position dependent API (%s): BTreeMap order is not TSN "
+                          "order across the 2^32 roll-over, so in-order delivery stalls or reorders there" % m)
+    r.need("reorder buffer mutation sites", n, 3)
+    return r
+
+
 def run(ctx):
-    return [r01_1(ctx), r01_2(ctx), r01_3(ctx), r01_4(ctx), r01_5(ctx)]
+    return [r01_1(ctx), r01_2(ctx), r01_3(ctx), r01_4(ctx), r01_5(ctx), r01_6(ctx)]
